@@ -146,6 +146,23 @@ Theorem scan_fault_bound : forall find dlen incl eofd, 1 <= dlen ->
   length ts <= length (s_data sc) /\ length (s_data sc) <= s_buflen sc /\ s_buflen sc <= MaxScanTokenSize.
 Proof. exact scan_fault_bound. Qed.
 
+(* Known finding F27 (old fixed-length reader, by_header_footer envelopes): above the line reader
+   the fault can be swallowed -- the torn line matches no header and the reader answers io.EOF
+   without reading on.  Replayed on the Go code from replays/corpus/C16/F27-hf-torn-header.json. *)
+Theorem hf_envelope_fault_refuted :
+  exists p f ls,
+    a_read_lines 4096 10 (p, TFault f) = Ok (ls, IoFault f) /\
+    starts_with BEG (p ++ [x47; x31; x0a]) = true /\
+    hf_envelope_start [starts_with BEG] ls (IoFault f) = HfEOF.
+Proof. exact hf_envelope_fault_refuted. Qed.
+
+(* Inside the guard (every non-empty line handed out matches a header) it cannot happen. *)
+Theorem hf_envelope_start_guarded : forall headers ls e,
+  e <> IoEOF ->
+  (forall l, In l ls -> l <> [] -> existsb (fun h => h l) headers = true) ->
+  hf_envelope_start headers ls e <> HfEOF.
+Proof. exact hf_envelope_start_guarded. Qed.
+
 (* Non-vacuity of the prefix theorems: the fault arrives inside the second line / segment. *)
 Example c16_prefix_nonvacuous :
   a_read_lines 8 10 ([x61; x62; x0a; x63], TFault 7) = Ok ([[x61; x62]; [x63]], IoFault 7) /\
